@@ -151,19 +151,68 @@ theorem compare_ints_correct (c : Cfg) (x y : Int) (hx : Kind.s64.inRange x) (hy
     compareMethod c .s64 x (.s64 y) = .ok (some (cmp3 x y)) ∧ compareMethod c .u64 x (.u64 y) = .ok (some (cmp3 x y)) :=
   compareMethod_ints c x y hx hy
 
-/-- number operands: accepted exactly when the double is an integer of magnitude ≤ 2^53 (and ≥ 0 for u64), and then taken
-    at its exact value (`janet_checkint64range` / `janet_checkuint64range`; bounds regenerated from janet.h) -/
+/-- **a number operand is converted exactly or refused** — for every double d (every 64-bit pattern b), the number branch of
+    `janet_unwrap_s64` / `janet_unwrap_u64` (reached from int/s64, int/u64 and every operator method, direct or reversed) either
+    raises "can not convert", or returns exactly the integer that d denotes, and that integer fits the type: the cast `(int64_t) d` /
+    `(uint64_t) d` never leaves the range, nothing wraps.  The accepted window `unwrapS64Lo..unwrapS64Hi` / `unwrapU64Lo..unwrapU64Hi`
+    is regenerated from the range test in inttypes.c / janet.h with the bounds evaluated as the C compiler does; the obligation on it
+    (`by decide` below) is that it lies inside the type.  It does not check for a test such as `d <= (double) INT64_MAX`:
+    that bound is 2^63 (see `unwrap_number_wraps_with_rounded_up_bound`). -/
+theorem unwrap_number_exact_or_rejected (d : Dbl) (b : Nat) :
+    (numToS64 d = none ∨ ∃ n, d.toInt? = some n ∧ Kind.s64.inRange n ∧ numToS64 d = some n) ∧
+    (numToU64 d = none ∨ ∃ n, d.toInt? = some n ∧ Kind.u64.inRange n ∧ numToU64 d = some n) ∧
+    (unwrapS (.num b) = .err .cvts ∨ ∃ n, (decode b).toInt? = some n ∧ Kind.s64.inRange n ∧ unwrapS (.num b) = .ok n) ∧
+    (unwrapU (.num b) = .err .cvtu ∨ ∃ n, (decode b).toInt? = some n ∧ Kind.u64.inRange n ∧ unwrapU (.num b) = .ok n) := by
+  have hS := fun d => numToS64W_exact unwrapS64Lo unwrapS64Hi (by decide) (by decide) d
+  have hU := fun d => numToU64W_exact unwrapU64Lo unwrapU64Hi (by decide) (by decide) d
+  refine ⟨hS d, hU d, ?_, ?_⟩
+  · rcases hS (decode b) with h | ⟨n, h1, h2, h3⟩
+    · left; simp only [unwrapS, numToS64, h]
+    · right; exact ⟨n, h1, h2, by simp only [unwrapS, numToS64, h3]⟩
+  · rcases hU (decode b) with h | ⟨n, h1, h2, h3⟩
+    · left; simp only [unwrapU, numToU64, h]
+    · right; exact ⟨n, h1, h2, by simp only [unwrapU, numToU64, h3]⟩
+
+/-- the statement above is about the bound, not a tautology of the model: with the window that "every integral double from
+    `(double) INT64_MIN` to `(double) INT64_MAX`" describes, the double 2^63 is accepted and `(int/s64 9223372036854775808)` is
+    INT64_MIN; with `0 .. (double) UINT64_MAX`, 2^64 is accepted and becomes 0 -/
+theorem unwrap_number_wraps_with_rounded_up_bound :
+    (decode 0x43e0000000000000).toInt? = some two63 ∧
+    numToS64W (-two63) two63 (decode 0x43e0000000000000) = some int64Min ∧
+    (decode 0x43f0000000000000).toInt? = some two64 ∧
+    numToU64W 0 two64 (decode 0x43f0000000000000) = some 0 := unwrap_window_rounded_up_wraps
+
+/-- non-vacuity: 2^53 is accepted at its value, -2^53 by s64 only, 2^53+2 and 2^63 are refused, 0.5 is refused -/
+example : unwrapS (.num 0x4340000000000000) = .ok two53 ∧ unwrapU (.num 0x4340000000000000) = .ok two53 ∧
+    unwrapS (.num 0xc340000000000000) = .ok (-two53) ∧ unwrapU (.num 0xc340000000000000) = .err .cvtu ∧
+    unwrapS (.num 0x4340000000000001) = .err .cvts ∧ unwrapS (.num 0x43e0000000000000) = .err .cvts ∧
+    unwrapU (.num 0x43f0000000000000) = .err .cvtu ∧ unwrapS (.num 0x3fe0000000000000) = .err .cvts := by
+  refine ⟨by decide, by decide, by decide, by decide, by decide, by decide, by decide, by decide⟩
+
+/-- number operands: accepted exactly when the double is an integer inside the regenerated window (magnitude ≤ 2^53, and ≥ 0 for
+    u64, on the current tree), and then taken at its exact value -/
 theorem unwrap_range (d : Dbl) (n : Int) :
-    (numToS64 d = some n ↔ d.toInt? = some n ∧ intMinDouble ≤ n ∧ n ≤ intMaxDouble) ∧
-    (numToU64 d = some n ↔ d.toInt? = some n ∧ 0 ≤ n ∧ n ≤ intMaxDouble) := by
-  unfold numToS64 numToU64
-  constructor <;> (cases h : d.toInt? <;> simp)
-  · constructor
-    · rintro ⟨h1, h2⟩; subst h2; exact ⟨rfl, h1⟩
-    · rintro ⟨h1, h2⟩; subst h1; exact ⟨h2, rfl⟩
-  · constructor
-    · rintro ⟨h1, h2⟩; subst h2; exact ⟨rfl, h1⟩
-    · rintro ⟨h1, h2⟩; subst h1; exact ⟨h2, rfl⟩
+    (numToS64 d = some n ↔ d.toInt? = some n ∧ unwrapS64Lo ≤ n ∧ n ≤ unwrapS64Hi) ∧
+    (numToU64 d = some n ↔ d.toInt? = some n ∧ unwrapU64Lo ≤ n ∧ n ≤ unwrapU64Hi) ∧
+    unwrapS64Lo = -two53 ∧ unwrapS64Hi = two53 ∧ unwrapU64Lo = 0 ∧ unwrapU64Hi = two53 := by
+  have hi := numToW_some_iff
+  refine ⟨?_, ?_, by decide, by decide, by decide, by decide⟩
+  · rw [numToS64, (hi unwrapS64Lo unwrapS64Hi d n).1]
+    constructor
+    · rintro ⟨m, h1, h2, h3, h4⟩
+      have hm : castS64 m = m := castS64_of_fits m (by simp only [unwrapS64Lo, unwrapS64Hi] at h2 h3; simp only [int64Min, int64Max]; omega)
+      rw [hm] at h4; subst h4; exact ⟨h1, h2, h3⟩
+    · rintro ⟨h1, h2, h3⟩
+      have hm : castS64 n = n := castS64_of_fits n (by simp only [unwrapS64Lo, unwrapS64Hi] at h2 h3; simp only [int64Min, int64Max]; omega)
+      exact ⟨n, h1, h2, h3, hm.symm⟩
+  · rw [numToU64, (hi unwrapU64Lo unwrapU64Hi d n).2]
+    constructor
+    · rintro ⟨m, h1, h2, h3, h4⟩
+      have hm : castU64 m = m := castU64_of_fits m (by simp only [unwrapU64Lo, unwrapU64Hi] at h2 h3; simp only [two64]; omega)
+      rw [hm] at h4; subst h4; exact ⟨h1, h2, h3⟩
+    · rintro ⟨h1, h2, h3⟩
+      have hm : castU64 n = n := castU64_of_fits n (by simp only [unwrapU64Lo, unwrapU64Hi] at h2 h3; simp only [two64]; omega)
+      exact ⟨n, h1, h2, h3, hm.symm⟩
 
 /-! ## numeric strings as operands -/
 
